@@ -6,9 +6,10 @@
 (* under those options for EVERY name of UNameSeq (a string of 0/1; used to  *)
 (* choose and explain probes - the recorded observations are judged by       *)
 (* MatcherTrace.tla).                                                        *)
-EXTENDS MatcherUpd, Json, TLC, SequencesExt
+EXTENDS MatcherUpd, Json, TLC, SequencesExt, Randomization
 
-CONSTANT UDepth      \* updates per behaviour
+CONSTANTS UDepth,     \* updates per behaviour
+          UFan        \* successors TLC draws per step (random elements of UUpdates; the walk takes one of them)
 
 UNameSeq == SetToSeq(UNames)
 UN == Cardinality(UNames)
@@ -19,16 +20,24 @@ RECURSIVE UFlatNames(_)
 UFlatNames(i) == IF i > UN THEN <<>> ELSE <<Flat(UNameSeq[i])>> \o UFlatNames(i + 1)
 ASSUME PrintT("@@N " \o ToJson([names |-> UFlatNames(1)]))
 
-VARIABLES f0, us
-gvars == <<opts, eff, f0, us>>
-GInit == UInit /\ f0 = opts /\ us = <<>>
-GNext == /\ Len(us) < UDepth
-         /\ \E u \in UUpdates : /\ UApply(u)
+\* TLC's simulator evaluates the invariant on EVERY successor it generates, not only on the one it
+\* walks to: the behaviour is printed in a final step of its own (one successor), when it is complete
+USets == (SUBSET OptNames) \ {{}}
+USmallSets == {S \in USets : Cardinality(S) <= 2}      \* an update usually names one or two options
+VARIABLES f0, us, done
+gvars == <<opts, eff, f0, us, done>>
+GInit == UInit /\ f0 = opts /\ us = <<>> /\ done = FALSE
+GStep == /\ Len(us) < UDepth
+         /\ \E S \in RandomSubset(1, IF RandomElement(1..3) = 1 THEN USets ELSE USmallSets), v \in RandomSubset(UFan, UFilters) :
+              LET u == Upd(S, v)             \* an element of UUpdates
+              IN                /\ UApply(u)
                                 /\ us' = Append(us, [set |-> u.set, val |-> u.val, conf |-> opts'])
-         /\ UNCHANGED f0
+         /\ UNCHANGED <<f0, done>>
+GDone == Len(us) = UDepth /\ ~done /\ done' = TRUE /\ UNCHANGED <<opts, eff, f0, us>>
+GNext == GStep \/ GDone
 GSpec == GInit /\ [][GNext]_gvars
 
-Emit == Len(us) = UDepth =>
+Emit == done =>
   PrintT("@@U " \o ToJson([f |-> RenderFilter(f0), ast |-> f0, expect |-> UBits(f0),
                            steps |-> [i \in 1..Len(us) |->
                                         [set |-> us[i].set, val |-> us[i].val, go |-> RenderFilter(us[i].val),
